@@ -2,10 +2,12 @@ module verif/harness
 
 go 1.20
 
-require github.com/WICG/webpackage v0.0.0
+require (
+	github.com/WICG/webpackage v0.0.0
+	github.com/youmark/pkcs8 v0.0.0-20201027041543-1326539a0a0a
+)
 
 require (
-	github.com/youmark/pkcs8 v0.0.0-20201027041543-1326539a0a0a // indirect
 	golang.org/x/crypto v0.31.0 // indirect
 	golang.org/x/sys v0.28.0 // indirect
 	golang.org/x/term v0.27.0 // indirect
